@@ -95,7 +95,7 @@ func (in *verifGroupIn) verifBalanceOptimal(members []GroupMember, who string) {
 func VerifC26_optimal2() {
 	var in *verifGroupIn
 	if verifThorough() {
-		in = verifShape(1, 2, []int{3, 2}, true, false)
+		in = verifShape(1, 2, []int{2, 2}, true, false)
 	} else {
 		in = verifShape(1, 2, []int{2, 1}, false, false)
 	}
@@ -117,7 +117,8 @@ func VerifC26_optimal3() {
 	in := verifShapeSubs(3, 3, []int{2, 2}, false, false, true)
 	in.verifOwnerClaims(verifThorough())
 	in.fixedGens = !verifThorough() // without conflicting claims generations are never compared
-	if verifThorough() && verifPick(2) == 1 {
+	if verifThorough() {
+		// the cooperative input path also reaches the UserData parser (negative generation)
 		in.verifBalanceOptimal(in.coopMembers(), "sticky cooperative input (3 members)")
 	} else {
 		in.verifBalanceOptimal(in.eagerMembers(), "sticky (3 members)")
